@@ -77,7 +77,7 @@ var delays = []int{0, 0, 0, 1, 20}
 func drawRunConfig(ch Chooser, modes []process.Execution_Version, cancel bool) sim.Config {
 	c := sim.Config{CancelAt: -1}
 	if os.Getenv("VERIF_TIER") == "thorough" {
-		c.MaxSteps = 12000
+		c.MaxSteps = 8000
 	}
 	c.Mode = modes[ch.Intn(len(modes))]
 	c.Monitor = ch.Intn(4) == 1
@@ -134,7 +134,11 @@ func DrawSimCase(ch Chooser, prop string) *SimCase {
 	// generator stages: respell the program (deliberate name coincidences, provider-alias
 	// shadowing), respell its types (aliases, unrollings, isomorphic copies), or - for the
 	// properties quantified over every *accepted* program - apply a single-edit mutation
-	switch ch.Intn(7) {
+	stage := ch.Intn(8)
+	if stage >= 6 && prop != "C01" {
+		stage = 0
+	}
+	switch stage {
 	case 1, 2:
 		c.Prog, c.StageRen = gen.Rename(c.Prog, ch.Intn)
 	case 3:
@@ -143,7 +147,7 @@ func DrawSimCase(ch Chooser, prop string) *SimCase {
 		c.Prog, c.StageRen = gen.Rename(c.Prog, ch.Intn, gen.RenameOpts{ShadowAlias: prop != "C14"})
 	case 4:
 		gen.ApplyTypeVariants(c.Prog, ch.Intn)
-	case 5:
+	case 5, 6, 7:
 		if prop == "C01" || prop == "C02" || prop == "C03" {
 			c.Mutated = gen.Mutate(c.Prog, ch.Intn)
 		}
@@ -347,8 +351,19 @@ func evalRun(c *SimCase, idx int, cfg sim.Config, res *sim.Result, ri refInfo, i
 }
 
 // ExecSimCase runs the case and returns the violations of all properties.
+// maxSrc bounds the program text: the interpreter renders the whole body of a process as a
+// string at every transition (its log calls evaluate their arguments eagerly), so a run costs
+// steps x body size; the thorough tier's larger programs are cut off here, deterministically.
+const maxSrc = 24000
+
 func ExecSimCase(t *testing.T, c *SimCase) ([]Violation, *CaseStats, []string) {
 	st := &CaseStats{Inconclusive: map[string]int{}, OtherProps: map[string]int{}}
+	if len(c.Src) > maxSrc || len(c.TwinSrc) > maxSrc {
+		st.Rejected = true
+		st.RejectReason = "oversize program skipped"
+		st.Inconclusive["oversize_program_skipped"]++
+		return nil, st, nil
+	}
 	var trouble []string
 	var vs []Violation
 	var ri refInfo
